@@ -788,15 +788,19 @@ func oneHistory(g *hc.Gen, o *hc.Out, scratch, bin string, h int) {
 			stoppedByFailure := false
 			interruptCommit := how == "interrupt" && g.Intn(2) == 0
 			for _, st := range program {
+				// this variant leaves the earlier COMMITs out; the recorded outcome of a later statement (a CREATE that
+				// failed because the file had been committed) would no longer be the process's: not for such programs
+				if st.line == "c01.commit" {
+					interruptCommit = false
+				}
+			}
+			for _, st := range program {
 				s := strings.ReplaceAll(st.sql, "\x01", ".")
 				if !strings.HasSuffix(s, ";") {
 					s += ";"
 				}
 				if strings.Contains(s, "1 / (v - v)") {
 					continue // fails or not depending on the table being empty; the "error" ending covers it
-				}
-				if interruptCommit && st.line == "c01.commit" {
-					continue // the signal must arrive in the FINAL commit: no earlier COMMIT in this variant
 				}
 				// the same statement, sometimes reached through a nested statement list
 				if !strings.HasPrefix(s, "DECLARE") && !strings.HasPrefix(s, "COMMIT") && !strings.HasPrefix(s, "ROLLBACK") && st.kind != "failed" {
@@ -1003,6 +1007,7 @@ func oneHistory(g *hc.Gen, o *hc.Out, scratch, bin string, h int) {
 			for _, f := range sourced {
 				_ = os.Remove(filepath.Join(d2, f))
 			}
+			o.Context(text.String())
 			o.Case("c01.qend "+how, diskState(d2, tr2))
 			if interruptCommit {
 				o.Count("process_runs:interrupt-in-commit")
